@@ -38,7 +38,7 @@ func c14(c *ctx) {
 		pkg := pkgName(i, vPlain)
 		cs.text = gram.PrintGrammar(g, cs.printOpts(pkg, nil))
 		cp.Add(&corpus.Job{Pkg: pkg, Text: cs.text, RuleNames: ruleNames(g), HasActions: g.Count(gram.KAction) > 0})
-		pcs = append(pcs, &pc{cs, gram.Inputs(r, g, "R0", 6, alpha)})
+		pcs = append(pcs, &pc{cs, tractable(g, "R0", gram.Inputs(r, g, "R0", 6, alpha))})
 	}
 	if err := cp.Build(); err != nil {
 		die("corpus build: %v", err)
